@@ -255,7 +255,14 @@ impl<'a> Gen<'a> {
                 Ty::Struct(fs)
             }
             0 => self.gen_scalar_ty(),
-            1 => Ty::arr(self.gen_scalar_ty()),
+            1 => {
+                if self.tape.chance(1, 5) {
+                    // an array of tuples (built from literals, pipelines and type filters over mixed tuples)
+                    Ty::arr(Ty::Tup(vec![self.gen_scalar_ty(), self.gen_scalar_ty()]))
+                } else {
+                    Ty::arr(self.gen_scalar_ty())
+                }
+            }
             2 => {
                 let a = self.gen_scalar_ty();
                 let b = self.gen_scalar_ty();
@@ -829,6 +836,37 @@ impl<'a> Gen<'a> {
             let items: Vec<Expr> = (0..n).map(|_| if self.tape.bool() { self.expr(elem, depth - 1) } else { self.expr(&other, depth - 1) }).collect();
             let source = if items.is_empty() { self.empty_arr(elem) } else { Expr::Array(items) };
             return Expr::TypeFilter(Box::new(Expr::Iter(Box::new(source))), elem.clone());
+        }
+        if let Ty::Tup(parts) = elem
+            && depth >= 1
+            && parts.iter().all(|p| matches!(p, Ty::Int | Ty::Str | Ty::Bool | Ty::Float))
+            && self.tape.chance(1, 3)
+        {
+            // a type filter for a tuple type over tuples of other lengths and other components
+            self.label("type filter for a tuple type over mixed tuples");
+            let n = 1 + self.tape.below(5);
+            let mut items = vec![];
+            for _ in 0..n {
+                let near = match self.tape.weighted(&[3, 2, 2, 2, 1]) {
+                    0 => elem.clone(),
+                    1 => {
+                        // one component more (the common prefix fits)
+                        let mut ps = parts.clone();
+                        ps.push(self.gen_scalar_ty());
+                        Ty::Tup(ps)
+                    }
+                    2 if parts.len() > 2 => Ty::Tup(parts[..parts.len() - 1].to_vec()),
+                    2 | 3 => {
+                        let mut ps = parts.clone();
+                        let k = self.tape.below(ps.len());
+                        ps[k] = self.gen_scalar_ty();
+                        Ty::Tup(ps)
+                    }
+                    _ => self.gen_scalar_ty(),
+                };
+                items.push(self.expr(&near, depth - 1));
+            }
+            return Expr::TypeFilter(Box::new(Expr::Iter(Box::new(Expr::Array(items)))), elem.clone());
         }
         let mut e = if !known.is_empty() && self.tape.chance(1, 4) {
             Expr::Var(known[self.tape.below(known.len())].name.clone())
